@@ -124,6 +124,23 @@ def cicje_value(rule, x):
     return int((not cond) or q)
 
 
+def cicje_well_formed(rule):
+    subs = rule.get("condition", {}).get("subConditions", []) if "condition" in rule else []
+    keys = []
+    for sc in subs:
+        cs = [c["id"] for c in sc["components"]]
+        if len(cs) != len(set(cs)) or not cs:
+            return False
+        keys.append((sc.get("relation", "ALL") if len(cs) > 1 else "one", frozenset(cs)))
+    if len(keys) != len(set(keys)):
+        return False
+    cq = [c["id"] for c in rule["consequence"]["components"]]
+    if len(cq) != len(set(cq)) or not cq:
+        return False
+    names = [d["id"] for d in [rule, rule["consequence"], rule.get("condition", {})] + subs if d.get("id")]
+    return len(names) == len(set(names)) and not (set(names) & set(cicje_leaves(rule)))
+
+
 def cicje_leaves(rule):
     ids = [c["id"] for c in rule["consequence"]["components"]]
     for sc in rule.get("condition", {}).get("subConditions", []):
@@ -209,8 +226,14 @@ def cicje_post(pre, args, kwargs, result):
         rt = rule["consequence"]["ruleType"]
     except Exception:
         raise monitor.OutOfScope()
-    if len(ids) > 8 or adapters.is_leaf(result) or adapters.validated(result) is None:
+    if len(ids) > 8 or adapters.is_leaf(result):
         raise monitor.OutOfScope()
+    if adapters.validated(result) is None:
+        # as for the constructors: a well formed rule dictionary (pairwise different sub-conditions, distinct components, unique ids)
+        # must mean its truth function even if the object built from it does not pass errors()
+        if not cicje_well_formed(rule):
+            raise monitor.OutOfScope()
+        ctx.count("count:cicJE:judged-although-errors()-nonempty")
     ctx.count("count:cicJE:" + rt)
     if judge_table(ctx, result, ids, lambda x: cicje_value(rule, x), "cicJE", {"rule": rule}):
         subs = rule.get("condition", {}).get("subConditions", []) if "condition" in rule else []
